@@ -457,6 +457,24 @@ fn gen_text_case(cur: &mut Cursor) -> Value {
                     mutate(cur, &s, MOVE_ALPHABET)
                 }
             }
+            6 if cur.chance(85) && !l.is_empty() => {
+                // SAN text of a move that only the king's safety forbids (pinned man, unanswered check), if there is one
+                let ps = p.pseudo_legal();
+                let bad: Vec<RefMove> = ps.iter().filter(|m| !l.contains(m)).cloned().collect();
+                if bad.is_empty() {
+                    grammar_san(cur, &p).text()
+                } else {
+                    let m = bad[cur.below(bad.len())];
+                    let full = p.san(&m, &ps);
+                    // mostly without hints: the text a player would write if the move were allowed
+                    if cur.bool() && m.man.1 != Pc::P {
+                        let dst = sq_name(m.to);
+                        format!("{}{}{}", m.man.1.letter(), if p.is_capture(&m) { "x" } else { "" }, dst)
+                    } else {
+                        full
+                    }
+                }
+            }
             6 => {
                 if cur.bool() || l.is_empty() {
                     alphabet_string(cur, MOVE_ALPHABET, 8)
